@@ -81,14 +81,10 @@ func checkC08(c *Ctx) {
 						if f, _, ok := ir.LoadedField(st.Chan); ok && f.Name != "" {
 							hasOther = true // a closable field channel (endpoint latch, done)
 						}
-						if mk, isLocal := unspill(st.Chan).(*ssa.MakeChan); isLocal {
-							// the awaited channel itself: it ends the wait on shutdown if close() closes the table it is registered in
-							for _, r := range *mk.Referrers() {
-								if mu, ok := r.(*ssa.MapUpdate); ok {
-									if f, _, ok := ir.LoadedField(mu.Map); ok && closedTables[f.Key()] {
-										hasOther = true
-									}
-								}
+						// the awaited channel itself: it ends the wait on shutdown if close() closes the table it is registered in
+						for _, tbl := range registeredIn(c, unspill(st.Chan), 0) {
+							if closedTables[tbl] {
+								hasOther = true
 							}
 						}
 					}
@@ -695,6 +691,32 @@ func c08TablePair(c *Ctx) {
 						removals[t] = append(removals[t], x)
 					}
 				}
+				// a call to a library helper that only registers an entry (inserts, never removes): the entry's lifetime
+				// is then this function's business
+				if sc := ir.StaticCallee(x); sc != nil && c.P.IsLib(sc) && sc != fn {
+					insT, remT := map[string]bool{}, map[string]bool{}
+					ir.EachInstr(sc, func(_ *ssa.BasicBlock, _ int, in2 ssa.Instruction) {
+						switch y := in2.(type) {
+						case *ssa.MapUpdate:
+							if t := tableOf(y.Map); t != "" {
+								if _, isChan := y.Value.Type().Underlying().(*types.Chan); isChan {
+									insT[t] = true
+								}
+							}
+						case *ssa.Call:
+							if b, ok := y.Call.Value.(*ssa.Builtin); ok && b.Name() == "delete" {
+								if t := tableOf(y.Call.Args[0]); t != "" {
+									remT[t] = true
+								}
+							}
+						}
+					})
+					for t := range insT {
+						if !remT[t] {
+							inserts = append(inserts, ins{x, t})
+						}
+					}
+				}
 				// a call to a library function that removes from the table
 				if sc := ir.StaticCallee(x); sc != nil && c.P.IsLib(sc) {
 					ir.EachCall(sc, func(c2 ssa.CallInstruction) {
@@ -757,4 +779,37 @@ func c08TablePair(c *Ctx) {
 	}
 	c.R.Min("R-table-pair", 5)
 	_ = n
+}
+
+// registeredIn: the table fields (map fields) a channel value is stored into — directly (make + map update in the same
+// function) or by the library helper that made, registered and returned it.
+func registeredIn(c *Ctx, v ssa.Value, depth int) []string {
+	var out []string
+	switch x := v.(type) {
+	case *ssa.MakeChan:
+		for _, r := range *x.Referrers() {
+			if mu, ok := r.(*ssa.MapUpdate); ok {
+				if f, _, ok := ir.LoadedField(mu.Map); ok {
+					out = append(out, f.Key())
+				}
+			}
+		}
+	case *ssa.Call:
+		sc := ir.StaticCallee(x)
+		if sc == nil || !c.P.IsLib(sc) || depth > 1 {
+			return nil
+		}
+		ir.EachInstr(sc, func(_ *ssa.BasicBlock, _ int, in ssa.Instruction) {
+			if r, ok := in.(*ssa.Return); ok {
+				for _, rv := range ir.Results(r) {
+					if _, isChan := rv.Type().Underlying().(*types.Chan); isChan {
+						out = append(out, registeredIn(c, unspill(rv), depth+1)...)
+					}
+				}
+			}
+		})
+	case *ssa.Extract:
+		return registeredIn(c, x.Tuple, depth)
+	}
+	return out
 }
